@@ -208,3 +208,29 @@ Theorem C07_every_call_sequence_returns_partial : forall strict w h buf ops,
   end.
 Proof. exact run_ops_total. Qed.
 Print Assumptions C07_every_call_sequence_returns_partial.
+
+(* ---- the remaining hypothesis discharged inside the working range (NoWrap.v) ---- *)
+Require Import RQ.CurveMetric RQ.NoWrap.
+
+(* (19) for a y-monotone curve edge (what add_quad produces) whose x coordinates lie within +-4000 px (16000 quarter
+   pixels) no slope quotient of ActiveEdge::step wraps - whatever the y coordinates are *)
+Theorem C07_no_slope_wrap_in_range : forall x1 y1 x2 y2 cx cy w, y1 < y2 -> y1 <= cy <= y2 ->
+  Z.abs x1 <= 16000 -> Z.abs x2 <= 16000 -> Z.abs cx <= 16000 ->
+  Z.abs y1 <= 16000 -> Z.abs y2 <= 16000 -> Z.abs cy <= 16000 ->
+  curve_no_slope_wrap x1 y1 x2 y2 cx cy w.
+Proof. exact curve_no_slope_wrap_in_range. Qed.
+Print Assumptions C07_no_slope_wrap_in_range.
+
+(* (20) hence Rasterizer::rasterize is total, without any hypothesis about wrapping, for every list of add_edge calls
+   whose curve edges are y-monotone with x coordinates within +-4000 px (straight edges: any integers) *)
+Theorem C07_rasterize_total_in_range : forall rule W H es,
+  0 <= W -> 0 <= H -> (forall a, In a es -> arg_mono_in_range a) ->
+  let r := fold_left add_any es (rast_new W H) in
+  let b := get_bounds r in
+  0 <= r_w b -> 0 <= r_h b ->
+  (exists r' m', rasterize blit_super rule r (maskbuf_new (x0 b) (y0 b) (r_w b) (r_h b)) = Ok (r', m') /\
+     length (m_buf m') = Z.to_nat (r_w b * r_h b + 1) /\ bytes_ok (m_buf m')) /\
+  (exists r' m', rasterize blit_mask rule r (maskbuf_new (x0 b) (y0 b) (r_w b) (r_h b)) = Ok (r', m') /\
+     length (m_buf m') = Z.to_nat (r_w b * r_h b + 1) /\ bytes_ok (m_buf m')).
+Proof. exact rasterize_total_in_range. Qed.
+Print Assumptions C07_rasterize_total_in_range.
